@@ -41,6 +41,10 @@ Inductive aev :=
 | ACloseBegin
 | ACloseEnd
 | AConnClose
-| ADone.                            (* the transport's done channel was observed closed *)
+| ADone                             (* the transport's done channel was observed closed *)
+| AReadErr                          (* the connection's read side ended (EOF / error injected by the peer) *)
+| ASample (pending goroutines : Z) (done connected errnil : bool).
+                                    (* a snapshot at quiescence: size of the pending-call table, goroutines of the library
+                                       still alive, Done() closed?, IsConnected()?, Err() == nil? *)
 
 Definition is_write (e : aev) : bool := match e with AWrite _ => true | _ => false end.
